@@ -3,7 +3,7 @@
     only; each is closed by [exact] of a lemma proved in ConcServeProofs.v.  (A file of
     its own because DavServer.v and Upload.v / Concurrent.v use the same short names.) *)
 From Coq Require Import PeanoNat List.
-From GW Require Import Base GoPath Fs DavServer CopySteps UploadSteps ConcServe ConcServeProofs.
+From GW Require Import Base GoPath Fs DavServer Rfc4918 CopySteps UploadSteps ConcServe ConcServeProofs.
 Local Open Scope list_scope.
 
 (** * Requests on disjoint collections, over the file-server model of C01 itself
@@ -88,39 +88,85 @@ Theorem C18_serve_local : forall (root c : path) (ch : list (string * node)) (s1
 Proof. exact serve_local. Qed.
 Print Assumptions C18_serve_local.
 
-(** A COPY as the sequence of its OS calls (checks, RemoveAll of the destination, one
-    Mkdir / copyRegularFile per entry of the Walk): run alone on a sandbox with sorted
-    listings it is the one step [do_copy]; all its calls belong to the client; ... *)
-Theorem C18_copy_prog_is_do_copy : forall root c sb r dst rec ow qs qd,
-  sorted_otree sb = true ->
+(** A COPY as the sequence of its OS calls, as fs_local.go makes them since the repair of
+    the write-fault defect: the checks; createTemp + Remove to reserve a name next to
+    the destination; one Mkdir / copyRegularFile per entry of the Walk at [tmp ++ rel];
+    on failure RemoveAll(tmp); on success RemoveAll(dst) if it existed and
+    Rename(tmp, dst).  All its calls belong to the client, with or without a fault,
+    whatever the calls return — PROVIDED both paths of the request are at or below its
+    collection: the checks then pass only for a destination STRICTLY below it, so the
+    temporary name (a sibling of the destination) is below it too.  (For a destination
+    that is the collection itself the sibling would lie outside; such a COPY is
+    refused 403 by the checks when the source is the client's as well.) *)
+Theorem C18_copy_prog_owned : forall colls i c, nth_error colls i = Some c ->
+  forall tmp k r dst rec ow qs qd,
   segs_under c (rpath r) = Some qs -> segs_under c dst = Some qd ->
-  exec_prog root (copy_prog c r dst rec ow) sb = do_copy root sb r dst rec ow.
-Proof. exact copy_prog_is_do_copy. Qed.
-Print Assumptions C18_copy_prog_is_do_copy.
-
-Theorem C18_copy_prog_owned : forall colls i c r dst rec ow qs qd,
-  nth_error colls i = Some c ->
-  segs_under c (rpath r) = Some qs -> segs_under c dst = Some qd ->
-  cowned colls response i (copy_prog c r dst rec ow).
+  cowned colls response i (copy_prog c tmp k r dst rec ow).
 Proof. exact copy_prog_owned. Qed.
 Print Assumptions C18_copy_prog_owned.
 
-(** ... hence a COPY interrupted between any two entries of its walk, for as long as
-    the scheduler likes, by clients on disjoint collections ends — once it has had
-    enough steps — with [do_copy]'s response, its collection being what [do_copy]
-    makes of it. *)
-Theorem C18_copy_interrupted : forall root colls, pairwise_incomparable colls = true ->
-  forall (progs : list (tprog act result response)) s0 i c r dst rec ow qs qd,
-  cwf colls response (progs, s0) -> sorted_otree s0 = true ->
-  nth_error colls i = Some c -> nth_error progs i = Some (copy_prog c r dst rec ow) ->
+(** Run alone, on a sandbox with sorted listings and with a free temporary name, it ends
+    with the response of the one step [do_copy] and in a sandbox that has at every path
+    the names, kinds and bytes of [do_copy]'s. *)
+Theorem C18_copy_prog_is_do_copy : forall root c sb r dst rec ow tmp qs qd,
+  sorted_otree sb = true ->
   segs_under c (rpath r) = Some qs -> segs_under c dst = Some qd ->
-  view_ok (geto s0 (root ++ c)) = true ->
+  tmp_free root sb r dst ow tmp ->
+  snd (exec_prog root (copy_prog c tmp None r dst rec ow) sb) = snd (do_copy root sb r dst rec ow) /\
+  forall q, Rfc4918.abs (fst (exec_prog root (copy_prog c tmp None r dst rec ow) sb)) q =
+            Rfc4918.abs (fst (do_copy root sb r dst rec ow)) q.
+Proof. exact copy_prog_is_do_copy. Qed.
+Print Assumptions C18_copy_prog_is_do_copy.
+
+(** ... hence a COPY interrupted between any two of its OS calls, for as long as the
+    scheduler likes, by clients on disjoint collections ends — once it has had enough
+    steps — with [do_copy]'s response, its collection having at every path what
+    [do_copy] makes of it. *)
+Theorem C18_copy_interrupted : forall root colls, pairwise_incomparable colls = true ->
+  forall (progs : list (tprog act result response)) s0 i c r dst rec ow tmp qs qd,
+  cwf colls response (progs, s0) -> sorted_otree s0 = true ->
+  nth_error colls i = Some c ->
+  segs_under c (rpath r) = Some qs -> segs_under c dst = Some qd ->
+  view_ok (geto s0 (root ++ c)) = true -> tmp_free root s0 r dst ow tmp ->
+  nth_error progs i = Some (copy_prog c tmp None r dst rec ow) ->
   exists n, forall sched, n <= count_occ Nat.eq_dec sched i ->
     let g := trun (act_step root) (progs, s0) sched in
     nth_error (fst g) i = Some (TRet (snd (do_copy root s0 r dst rec ow))) /\
-    geto (snd g) (root ++ c) = geto (fst (do_copy root s0 r dst rec ow)) (root ++ c).
+    forall q, Rfc4918.abs (snd g) (root ++ c ++ q) = Rfc4918.abs (fst (do_copy root s0 r dst rec ow)) (root ++ c ++ q).
 Proof. exact copy_interrupted. Qed.
 Print Assumptions C18_copy_interrupted.
+
+(** A COPY in which the creation of ANY entry of the walk fails (a write error): run
+    alone it answers 500 and the sandbox is the very one it started from; ... *)
+Theorem C18_copy_fault_harmless_alone : forall root c sb r dst rec ow tmp qs qd k ss n ds cr,
+  sorted_otree sb = true ->
+  segs_under c (rpath r) = Some qs -> segs_under c dst = Some qd ->
+  tmp_free root sb r dst ow tmp ->
+  copy_move_checks root sb (rpath r) dst ow = GOk (ss, n, ds, cr) ->
+  k < List.length (walk_entries n rec) ->
+  exec_prog root (copy_prog c tmp (Some k) r dst rec ow) sb = (sb, fail500).
+Proof. exact copy_fault_harmless_alone. Qed.
+Print Assumptions C18_copy_fault_harmless_alone.
+
+(** ... and among the steps of clients on disjoint collections it answers 500 and leaves
+    its own collection exactly as it was — the others never see it at all
+    ([C18_serve_stalled_client_harmless]): every client's view is as before. *)
+Theorem C18_copy_fault_harmless : forall root colls, pairwise_incomparable colls = true ->
+  forall (progs : list (tprog act result response)) s0 i c r dst rec ow tmp qs qd,
+  cwf colls response (progs, s0) -> sorted_otree s0 = true ->
+  nth_error colls i = Some c ->
+  segs_under c (rpath r) = Some qs -> segs_under c dst = Some qd ->
+  view_ok (geto s0 (root ++ c)) = true -> tmp_free root s0 r dst ow tmp ->
+  forall k ss n ds cr,
+  nth_error progs i = Some (copy_prog c tmp (Some k) r dst rec ow) ->
+  copy_move_checks root s0 (rpath r) dst ow = GOk (ss, n, ds, cr) ->
+  k < List.length (walk_entries n rec) ->
+  exists m, forall sched, m <= count_occ Nat.eq_dec sched i ->
+    let g := trun (act_step root) (progs, s0) sched in
+    nth_error (fst g) i = Some (TRet fail500) /\
+    geto (snd g) (root ++ c) = geto s0 (root ++ c).
+Proof. exact copy_fault_harmless. Qed.
+Print Assumptions C18_copy_fault_harmless.
 
 (** The upload section of a PUT as the sequence of its OS calls (createTemp, one write
     per piece of the body, Rename = read / remove / map): all calls belong to the
